@@ -35,15 +35,45 @@ pub fn front(db: &RootDatabase, name: &str, source: &str, settings: &str) -> Res
         let id = cairo::crate_id(db, &input);
         match db.get_sierra_program(vec![id]) {
             Ok(p) => Ok(Front::Program(replace_sierra_ids_in_program(db, &p.program))),
-            Err(_) => Err(("error-free-but-no-sierra".to_string(), "diagnostics are error-free but get_sierra_program fails".to_string())),
+            Err(_) => {
+                // Root-cause class: a call through a name that a local variable shadows is
+                // reported as a warning only (E2184) although the call expression is dropped.
+                if diags.contains("warning[E2184]") {
+                    Err(("error-free-but-no-sierra:call-of-function-shadowed-by-local(E2184)".to_string(), format!("diagnostics are error-free (only warnings) but get_sierra_program fails; warnings:\n{}", truncate(&diags, 400))))
+                } else {
+                    Err(("error-free-but-no-sierra".to_string(), format!("diagnostics are error-free but get_sierra_program fails; warnings:\n{}", truncate(&diags, 400))))
+                }
+            }
         }
     });
     match r {
         Ok(x) => x,
         // A panic while only diagnostics were computed is C09's business as well, but C08 states
         // "without an internal compiler error or panic", so it is reported here too.
-        Err(p) => Err((format!("panic@{}", p.loc), format!("the compiler panicked at {}: {}", p.loc, truncate(&p.msg, 300)))),
+        Err(p) => {
+            // Specialisation failures of a corelib extern that the source names directly (the
+            // e2e libfunc snippets call externs directly; a type-name mutant then asks for an
+            // unsupported instantiation) are one root-cause class.
+            if let Some(name) = specialization_subject(&p.msg) {
+                let named = rough_lex(source).iter().any(|t| t.kind == TokKind::Ident && source[t.start..t.end] == name);
+                if named {
+                    return Err(("specialization-panic:direct-use-of-corelib-extern".to_string(), format!("the source names the corelib extern `{name}` directly with unsupported generic arguments; no diagnostic, panic at {}: {}", p.loc, truncate(&p.msg, 300))));
+                }
+            }
+            Err((format!("panic@{}", p.loc), format!("the compiler panicked at {}: {}", p.loc, truncate(&p.msg, 300))))
+        }
     }
+}
+
+/// `Failed to specialize: \`name<..>\`` / `Got failure while specializing type \`name<..>\``.
+fn specialization_subject(msg: &str) -> Option<String> {
+    if !(msg.contains("Failed to specialize") || msg.contains("failure while specializing")) {
+        return None;
+    }
+    let start = msg.find('`')? + 1;
+    let rest = &msg[start..];
+    let end = rest.find(|c: char| !(c.is_ascii_alphanumeric() || c == '_'))?;
+    if end == 0 { None } else { Some(rest[..end].to_string()) }
 }
 
 /// Back end: registry (validation), own checker, metadata (both solvers for small programs), CASM.
@@ -260,6 +290,12 @@ impl Prop for C08 {
                         if muts.is_empty() {
                             return Verdict::Skip("mutation changed nothing");
                         }
+                    }
+                    if mode == 1 && (source.contains("extern fn") || source.contains("extern type")) {
+                        // Extern declarations are a trusted interface to Sierra: a mutant that
+                        // changes a declared signature is not a program of the property's domain.
+                        cc.stats().count("excluded:mutant_of_source_with_extern_declarations");
+                        return Verdict::Skip("extern declarations");
                     }
                     let a = art("compile", &origin, &source, settings, &cfg, json!({"mutations": muts}));
                     cc.start(|| a.clone());
